@@ -19,7 +19,7 @@ use crate::core::*;
 use crate::refmodel::expr::*;
 use crate::sut::{self, from_value, RVal};
 
-pub const DEF: &str = "CREATE TABLE t({ .m } => m TEXT, { .i } => i INT, { .j } => j INT, { .r } => r REAL, { .s } => s REAL, { .t } => t TEXT, { .u } => u TEXT, { .b } => b BOOLEAN, { .a } => a INT[], { .ts } => ts TIMESTAMP CONVERT, { .iv } => iv INTERVAL CONVERT);";
+pub const DEF: &str = "CREATE TABLE t({ .m } => m TEXT, { .i } => i INT, { .j } => j INT, { .r } => r REAL, { .s } => s REAL, { .t } => t TEXT, { .u } => u TEXT, { .b } => b BOOLEAN, { .a } => a INT[], { .x } => x TEXT[], { .ts } => ts TIMESTAMP CONVERT, { .iv } => iv INTERVAL CONVERT);";
 
 const TS1: &str = "2021-03-04 05:06:07";
 const TS2: &str = "1999-12-31 23:59:59";
@@ -35,6 +35,7 @@ fn col_domain(c: &str, reduced: bool) -> Vec<(Option<String>, RVal)> {
         "t" | "u" => vec![(None, RVal::Null), text(""), text("a"), text("b"), text("A"), text("é"), text("10"), text("9")],
         "b" => vec![(None, RVal::Null), (Some("true".into()), RVal::Bool(true)), (Some("false".into()), RVal::Bool(false))],
         "a" => vec![(None, RVal::Null), (Some("[]".into()), RVal::Array(vec![])), (Some("[1,2]".into()), RVal::Array(vec![RVal::Int(1), RVal::Int(2)])), (Some("[null,3]".into()), RVal::Array(vec![RVal::Null, RVal::Int(3)]))],
+        "x" => vec![(None, RVal::Null), (Some("[\"p\"]".into()), RVal::Array(vec![RVal::Text("p".into())])), (Some("[\"p\",\"q\"]".into()), RVal::Array(vec![RVal::Text("p".into()), RVal::Text("q".into())])), (Some("[null,\"1\"]".into()), RVal::Array(vec![RVal::Null, RVal::Text("1".into())]))],
         "ts" => vec![(None, RVal::Null), (Some(format!("{:?}", TS1)), RVal::Ts(parse_ts(TS1).unwrap())), (Some(format!("{:?}", TS2)), RVal::Ts(parse_ts(TS2).unwrap()))],
         "iv" => vec![(None, RVal::Null), (Some("\"1:30:00\"".into()), RVal::Iv(5_400_000_000)), (Some("\"0:00:01\"".into()), RVal::Iv(1_000_000))],
         "m" => vec![text("m")],
@@ -53,7 +54,7 @@ fn col_domain(c: &str, reduced: bool) -> Vec<(Option<String>, RVal)> {
     }
 }
 
-const COLS: [&str; 10] = ["i", "j", "r", "s", "t", "u", "b", "a", "ts", "iv"];
+const COLS: [&str; 11] = ["i", "j", "r", "s", "t", "u", "b", "a", "x", "ts", "iv"];
 
 pub fn leaves() -> Vec<E> {
     let mut v: Vec<E> = COLS.iter().map(|c| E::Col(c.to_string())).collect();
